@@ -101,15 +101,16 @@ class Oracle:
         if obs.kind == "FOREIGN" and not obs.crashed:
             p = obs.foreign_path or (self.cd + "/" + obs.op["name"])
             ent = obs.post.get(p)
-            if ent is not None and ent[0] == "f" and p not in self.foreign:
-                self.foreign[p] = (ent[3], ent[4])
+            if ent is not None and ent[0] in ("f", "l") and p not in self.foreign:
+                # (a symbolic link of the user's is tracked by its own text and stamp, not by what it points at)
+                self.foreign[p] = (None if getattr(obs, "foreign_bytes_only", False) else ent[3], ent[4])
             return None
         for p, (mt, data) in self.foreign.items():
             ent = obs.post.get(p)
             clause = "18g" if not self.c19 else "19c-foreign"
             if ent is None:
                 return self._v(clause, "foreign file %s was deleted" % p, obs)
-            if ent[4] != data or ent[3] != mt:
+            if ent[4] != data or (mt is not None and ent[3] != mt):
                 return self._v(clause, "foreign file %s was modified" % p, obs)
         return None
 
